@@ -1,15 +1,14 @@
-\* state-cover plans: one history per distinct design state (as built) at depth 9, all counts 1..4 x 1..4, both namings
+\* plans with failing collection starts (OfferFail): every history, init + 3 steps (filtered to those with a failing start)
 SPECIFICATION Spec
 CHECK_DEADLOCK FALSE
-VIEW view
 INVARIANTS PlanOut
 CONSTANTS
   MaxS = 4
   MaxT = 4
   Pairs <- AllPairs
   Namings = {"distinct", "same"}
-  MaxOps = 9
+  MaxOps = 4
   HandoffChecksCapacity = FALSE
   ForwardCountedOnce = FALSE
   SourceKeyFromMapping = FALSE
-  WithFail = FALSE
+  WithFail = TRUE
